@@ -50,6 +50,8 @@ Definition s_len (s : series) : Z := slen (sd s).
 Definition s_index (s : series) : ixdesc :=
   {| ik := sidx s; ilen := slen (sd s); isorted := ssorted (sd s); ilab := slab s |}.
 
+(* len(index): a length is never negative, whatever number the descriptor carries *)
+Definition ix_len (i : ixdesc) : Z := Z.max 0 (ilen i).
 Definition ix_is_ndarray (i : ixdesc) : bool := ixkind_eqb (ik i) KNdarray.
 (* pd.Index(<integer array>) *)
 Definition ix_from_ndarray (i : ixdesc) : ixdesc :=
